@@ -47,9 +47,10 @@ ASSUME G <= 12 /\ XMax <= 16 /\ XMax > 4 /\ FineM * Pow2(G) < 4096
 \* the single extra registrations applied to a private factory: new / existing scalar / existing module type code x
 \* same / other existing / new name x scalar or module function (user functions "cube" and "sum")
 ExtraRegs == { [type |-> t, name |-> n, kind |-> k, impl |-> IF k = "scalar" THEN "cube" ELSE "sum"] :
-                 t \in {1, 14, 22, 100}, n \in {"SigmoidPlainActivation", "MaxModuleActivation", "CubeActivation"},
+                 t \in {1, 14, 22, 24, 100, 200}, n \in {"SigmoidPlainActivation", "MaxModuleActivation", "CubeActivation"},
                  k \in {"scalar", "module"} }
-ObsTypes == <<0, 1, 14, 22, 100>>
+\* every type code a caller can ask about (a registration with a high code must not make the codes below it known)
+ObsTypes == [i \in 1..256 |-> i - 1]
 ObsNames == <<"SigmoidPlainActivation", "LinearActivation", "MaxModuleActivation", "CubeActivation">>
 Obs(r) == [types |-> [i \in DOMAIN ObsTypes |-> TypeObs(r, ObsTypes[i])],
            names |-> [i \in DOMAIN ObsNames |-> NameObs(r, ObsNames[i])]]
